@@ -457,11 +457,40 @@ def acquire_sites(tree):
     return out
 
 
+API_METHODS = ["store_object", "tag_object", "delete_if_invalid_object", "store_metadata", "retrieve_object",
+               "retrieve_metadata", "delete_object", "delete_metadata", "get_hex_digest"]
+LIST_ORDER = ["object_locked_pids", "reference_locked_pids", "object_locked_cids", "metadata_locked_docs"]
+
+
+def public_acquires(tree):
+    """[(API method, lists it may claim an identifier of, calls followed)] in the order of the classes"""
+    cls = _class_def(tree)
+    if cls is None:
+        return None
+    out = []
+    for m in API_METHODS:
+        o = _Order(cls)
+        if m not in o.methods:
+            out.append((m, ["?missing"]))
+            continue
+        acquired = set()
+        orig = o.do_call
+
+        def do_call(c, held, _orig=orig, _acq=acquired):
+            r = _orig(c, held)
+            _acq.update(r - held)
+            return r
+        o.do_call = do_call
+        o.method(m, set())
+        out.append((m, [x for x in LIST_ORDER if x in acquired] + sorted(x for x in acquired if x not in LIST_ORDER)))
+    return out
+
+
 def extract(src):
     tree = ast.parse(src)
     mp, th = init_tables(tree)
     return {"sections": sections(tree), "init_mp": mp, "init_th": th, "mode_flag": mode_flag(tree),
-            "edges": lock_order_edges(tree), "sites": acquire_sites(tree)}
+            "edges": lock_order_edges(tree), "sites": acquire_sites(tree), "public": public_acquires(tree)}
 
 
 if __name__ == "__main__":
